@@ -1,6 +1,6 @@
 """C19 — peer message framing is faithful under fragmentation and enforces size limits
 (spec/Codec.tla, spec/Handshake.tla; harness crate h_codec)."""
-import json, os, re
+import json, os, re, threading
 import vlib
 from vlib import Report, ToolError, log
 
@@ -9,8 +9,9 @@ ENGINES = ["codec"]
 
 # constants of the TLC configs (spec/mc/MC_Codec*.cfg); the build must agree
 MODEL_CONSTS = {"HDR": 11, "BH": 257, "BHMAX": 310, "MaxBlockSize": 7788}
-CODEC_ACTIONS = ["Deliver", "ExpectAttachment", "Call", "Loop", "ReadExact", "IdleTimeout", "Eof", "Parse"]
-HS_ACTIONS = ["Start", "Accept", "Finish", "Reset"]
+CODEC_ACTIONS = ["Deliver", "Silence", "ExpectAttachment", "Call", "Loop", "ReadExact", "Timeout", "Eof", "Parse"]
+HS_ACTIONS = ["Start", "Accept", "Finish", "Lose", "Reset"]
+RING_CAP = 100   # NONCES_CAP of p2p/src/handshake.rs = RingCap of spec/mc/MC_HandshakeRing_*.cfg
 
 
 def codec_signature(m):
@@ -20,7 +21,44 @@ def codec_signature(m):
         sig += ":n=0"
     elif m.get("class") in ("refused", "badcount", "baddecode", "unexpected", "trailing"):
         sig += ":" + m["class"]
+    if (m.get("plan") or {}).get("kind") == "bodygap":
+        # the peer paused for longer than the header timeout in the middle of a frame body
+        sig += ":bodygap"
     return sig
+
+
+def hs_signature(m):
+    c = m["case"]
+    if c.get("role") == "ring":
+        return "handshake:ring:%s:%s:%s" % (m.get("kind", "?"), m["what"], m.get("when", ""))
+    return "handshake:%s:%s:%s" % (c["role"], m["what"], c["expect"]["res"])
+
+
+def hs_what(m):
+    c = m["case"]
+    if c.get("role") == "ring":
+        return "script %s: %s" % (c.get("name", ""), m["detail"])
+    return "%s lv=%s rv=%s same_genesis=%s nonce_in_ring=%s: %s" % (
+        c["role"], c["lv"], c["rv"], c["same_genesis"], c["nonce_in_ring"], m["detail"])
+
+
+def ring_case(name):
+    """One scripted behaviour of a single Handshake object with more outbound initiations than the
+    real nonce ring holds, walked by TLC through Handshake.tla (invariants checked on the way)."""
+    r = vlib.tlc("mc/MC_HandshakeRing", "mc/MC_HandshakeRing_" + name, workers=1, timeout=600)
+    if r.invariant_violated:
+        print(r.out[-3000:])
+        raise ToolError("Handshake.tla invariant %s violated on the ring script %s" % (r.invariant_violated, name))
+    vlib.tlc_ok(r, "MC_HandshakeRing_" + name)
+    hs = [json.loads(x) for x in r.printed("HSRING")]
+    if len(hs) != 1:
+        raise ToolError("ring script %s: %d histories emitted" % (name, len(hs)))
+    h = hs[0]
+    outbound = sum(1 for k in h["script"] if k != "in")
+    if outbound <= RING_CAP or len(h["conns"]) != len(h["script"]):
+        raise ToolError("ring script %s does not exceed the capacity (%d outbound)" % (name, outbound))
+    h.update({"role": "ring", "cap": RING_CAP, "name": name})
+    return h, r
 
 
 def run_harness(args, what):
@@ -74,7 +112,8 @@ def run(tier, replay):
             cp = os.path.join(wd, "replay_hs.ndjson"); outp = os.path.join(wd, "replay_hs_out.ndjson")
             vlib.write_ndjson(cp, [case["case"]])
             run_harness(["codec", "handshake", "--cases", cp, "--out", outp], "handshake")
-            for m in vlib.read_ndjson(outp):
+            for m in vlib.read_ndjson(outp)[:1]:
+                m.pop("case", None)
                 rep.violation(obj["signature"], case, json.dumps(m)[:600])
         elif case.get("kind") == "codec":
             extra = ["--plan", json.dumps(case["plan"])] if case.get("plan") else None
@@ -113,6 +152,12 @@ def run(tier, replay):
         if ac.get(a, (0, 0))[1] == 0:
             raise ToolError("Codec.tla action %s never taken (vacuous model)" % a)
     states, trans = r.distinct, r.generated
+    # (M1p) the model tells the two placements of set_stream_timeout apart: with the timeout chosen
+    # once per read() (TimeoutPerChunk = FALSE) a silence inside a body must break NoDesync
+    rp = vlib.tlc("mc/MC_Codec", "mc/MC_Codec_probe_hoist", workers=1, coverage=False, timeout=600)
+    if "NoDesync" not in rp.invariant_violated:
+        print(rp.out[-3000:])
+        raise ToolError("Codec.tla does not distinguish the header timeout from the body timeout (probe passed)")
     # (M2) Handshake.tla
     rh = vlib.tlc("mc/MC_Handshake", "mc/MC_Handshake", workers=2, timeout=600)
     if rh.invariant_violated:
@@ -123,6 +168,23 @@ def run(tier, replay):
     for a in HS_ACTIONS:
         if ach.get(a, (0, 0))[1] == 0:
             raise ToolError("Handshake.tla action %s never taken" % a)
+
+    # (M3/A3) the nonce ring at its real capacity: scripted behaviours of ONE Handshake object with
+    # more than NONCES_CAP outbound initiations.  The long script (every dial delivers its Hand,
+    # 150 ms apart) is replayed in the background while the codec socket runs are going on.
+    ring_fast, rrf = ring_case("fast")
+    ring_full, rrl = ring_case("full")
+    rfp = os.path.join(wd, "hs_ring_full.ndjson"); rfo = os.path.join(wd, "hs_ring_full_out.ndjson")
+    vlib.write_ndjson(rfp, [ring_full])
+    bg = {}
+
+    def ring_bg():
+        try:
+            bg["stats"], bg["p"] = run_harness(["codec", "handshake", "--cases", rfp, "--out", rfo], "handshake ring")
+        except BaseException as e:      # re-raised in the main thread
+            bg["exc"] = e
+    th = threading.Thread(target=ring_bg)
+    th.start()
 
     # (A1) streams + expectations from TLC, rendered and fragmented on loopback, read by the real Codec
     cases = emit(("mc/MC_Codec", "mc/MC_Codec_emit_thorough" if thorough else "mc/MC_Codec_emit"), "CODECCASE", "MC_Codec emit")
@@ -141,6 +203,8 @@ def run(tier, replay):
         rep.violation(sig, {"kind": "codec", "case": cases[m["case"]], "plan": m["plan"], "mismatch": m}, what)
     if stats and stats.get("idle_runs", 0) > 0 and stats.get("timeouts_observed", 0) == 0:
         raise ToolError("no read timeout was observed in the idle runs (HEADER_IO_TIMEOUT path not exercised)")
+    if stats and stats.get("bodygap_runs", 0) < 10:
+        raise ToolError("too few runs with a silent peer inside a frame body (%s)" % stats.get("bodygap_runs"))
 
     # anti-vacuity: a deliberately wrong adapter (first result dropped) must be reported
     sub = [c for c in cases if len(c["expect"]) >= 2][:12]
@@ -152,23 +216,37 @@ def run(tier, replay):
     # (A2) handshake decision table against the real Handshake::accept / initiate
     hcases = emit(("mc/MC_Handshake", "mc/MC_Handshake_emit"), "HSCASE", "MC_Handshake emit")
     hp = os.path.join(wd, "hs_cases.ndjson"); ho = os.path.join(wd, "hs_out.ndjson")
-    vlib.write_ndjson(hp, hcases)
+    vlib.write_ndjson(hp, hcases + [ring_fast])
     hstats, _ = run_harness(["codec", "handshake", "--cases", hp, "--out", ho], "handshake")
     if hstats is None or hstats["executed"] < 20:
         raise ToolError("handshake cases not executed")
-    for m in vlib.read_ndjson(ho):
-        c = m["case"]
-        sig = "handshake:%s:%s:%s" % (c["role"], m["what"], c["expect"]["res"])
-        rep.violation(sig, {"kind": "handshake", "case": c, "mismatch": m},
-                      "%s lv=%s rv=%s same_genesis=%s nonce_in_ring=%s: %s" % (c["role"], c["lv"], c["rv"], c["same_genesis"], c["nonce_in_ring"], m["detail"]))
+    th.join()
+    if "exc" in bg:
+        raise bg["exc"]
+    if bg.get("stats") is None:
+        raise ToolError("handshake ring script (full) not executed")
+    ring_conns = hstats.get("ring_connections", 0) + bg["stats"].get("ring_connections", 0)
+    ring_outbound = max(hstats.get("ring_max_outbound_on_one_object", 0), bg["stats"].get("ring_max_outbound_on_one_object", 0))
+    if min(hstats.get("ring_max_outbound_on_one_object", 0), bg["stats"].get("ring_max_outbound_on_one_object", 0)) <= RING_CAP:
+        raise ToolError("the ring scripts did not exceed NONCES_CAP on the real Handshake object")
+    seen_sigs = set()
+    for m in vlib.read_ndjson(ho) + vlib.read_ndjson(rfo):
+        c = m.pop("case")
+        m["case"] = c
+        sig = hs_signature(m)
+        if sig in seen_sigs:
+            continue
+        seen_sigs.add(sig)
+        mm = {k: v for k, v in m.items() if k != "case"}
+        rep.violation(sig, {"kind": "handshake", "case": c, "mismatch": mm}, hs_what(m))
 
     # (B) what conn::listen hands to a MessageHandler for random message sequences
     bstats = direction_b(rep, wd, thorough)
 
     n_refusal = sum(1 for c in cases if c["expect"] and c["expect"][-1]["r"] == "err")
     rep.coverage = {
-        "states": states + rh.distinct, "transitions": trans + rh.generated,
-        "traces_validated_against_impl": (stats.get("runs", 0) if stats else 0) + hstats["executed"] + bstats.get("sequences", 0),
+        "states": states + rh.distinct + rrf.distinct + rrl.distinct, "transitions": trans + rh.generated + rrf.generated + rrl.generated,
+        "traces_validated_against_impl": (stats.get("runs", 0) if stats else 0) + hstats["executed"] + 1 + bstats.get("sequences", 0),
         "samples": [
             {"frames": [f["k"] + ":t%d:len%d" % (f["t"], f["len"]) for f in cases[len(cases) // 3]["frames"]],
              "expect": cases[len(cases) // 3]["expect"]},
@@ -184,6 +262,13 @@ def run(tier, replay):
         "single_split_runs": stats.get("single_split_runs") if stats else 0,
         "multi_split_runs": stats.get("multi_split_runs") if stats else 0,
         "idle_timeout_runs": stats.get("idle_runs") if stats else 0,
+        "silent_in_body_runs": stats.get("bodygap_runs") if stats else 0,
+        "silent_in_body_regions": stats.get("bodygap_regions") if stats else {},
+        "read_timeouts_in_silent_in_body_runs": stats.get("bodygap_read_timeouts") if stats else 0,
+        "model_probe_timeout_per_read_call": {"cfg": "mc/MC_Codec_probe_hoist", "violated": rp.invariant_violated},
+        "ring_scripts": {"fast": {"connections": len(ring_fast["conns"]), "states": rrf.distinct},
+                         "full": {"connections": len(ring_full["conns"]), "states": rrl.distinct}},
+        "ring_connections_replayed": ring_conns, "ring_max_outbound_initiations_on_one_object": ring_outbound,
         "read_timeouts_observed": stats.get("timeouts_observed") if stats else 0,
         "frames_identical_to_write_message": stats.get("frames_checked_against_write_message") if stats else 0,
         "max_single_allocation_during_reads": stats.get("max_single_alloc") if stats else 0,
@@ -191,11 +276,12 @@ def run(tier, replay):
         "selftest_corruptions_rejected": len(mm2),
         "direction_b": bstats,
         "wire_constants": consts,
-        "checker_cmd": "tlc mc/MC_Codec; tlc mc/MC_Handshake; h_codec replay|handshake|record",
+        "checker_cmd": "tlc mc/MC_Codec; tlc mc/MC_Codec_probe_hoist; tlc mc/MC_Handshake; tlc mc/MC_HandshakeRing_fast|full; h_codec replay|handshake|record",
     }
     rep.assumptions = [
         "chain type AutomatedTesting (max_block_size 7788, header 257 bytes, PoW 8-cycles on 2^10 edges); other chain types only change the constants",
-        "every fragment gap stays inside HEADER_IO_TIMEOUT (2 s) / BODY_IO_TIMEOUT (60 s), as the property states; a silent peer is modelled only between frames",
+        "every fragment gap stays inside the I/O timeouts as the property states (Codec.tla SilenceOK): pauses longer than HEADER_IO_TIMEOUT (2 s; 2.3-2.6 s in the socket runs) occur between frames and after the 11 header bytes of a frame (body, header items, attachment chunks), never inside the 11 header bytes; pauses near BODY_IO_TIMEOUT (60 s) are in the model only",
+        "nonce ring: the scripts exceed NONCES_CAP by a few initiations on one Handshake object; broken dials are realised by a socket whose write side is shut down (the Hand cannot be written), concurrent dials are not exercised",
         "fragmentation is forced by waiting until the reader drained the socket (FIONREAD) before the next write; the kernel may still coalesce fragments of the unsynchronised random plans",
         "the real side of every handshake case has PROTOCOL_VERSION 1000 (the constant of the build); the other model cases are checked in TLC only",
         "bodies of Block/CompactBlock/Transaction/segment-response types are exercised at the framing level only (limits, refusal), not with decodable contents",
